@@ -61,7 +61,7 @@ impl C10 {
         };
         cell.get_or_init(|| {
             let (max_frame, budget, gen_n) = match tier {
-                Tier::Quick => (3 * 1024usize, 150_000usize, 120u64),
+                Tier::Quick => (4 * 1024usize, 400_000usize, 400u64),
                 Tier::Thorough => (256 * 1024usize, 4_000_000usize, 1500u64),
             };
             let mut v: Vec<(FrameSpec, usize)> = Vec::new();
@@ -165,8 +165,8 @@ impl Engine for C10 {
         let (_, total) = self.table(tier);
         total
             + match tier {
-                Tier::Quick => 60_000,
-                Tier::Thorough => 1_500_000,
+                Tier::Quick => 500_000,
+                Tier::Thorough => 5_000_000,
             }
     }
 
